@@ -199,11 +199,15 @@ def h04(E, M, case):
     ttl_ms = 0 if c["ttl"] == TTL_FOREVER else c["ttl"] * 1000
     horizon = t_end + ttl_ms + c["cyclic"] * 1000 + (c["refresh"] or 0) * 1000 + 50
     loop.settle(horizon)
+    bl, al = logs["B"], logs["A"]
+    nb, na = len(bl), len(al)
+    # converged means stable: one more TTL and two more cyclic periods bring no events
+    loop.settle(horizon + ttl_ms + 2 * c["cyclic"] * 1000)
     loop_clean(E, loop)
     E.reach("h04.end")
+    E.require(len(bl) == nb and len(al) == na, "after convergence the listeners see no further events while nothing is disturbed", {"watcher_extra": bl[nb:][:4], "server_extra": al[na:][:4], "kinds": case["kinds"]})
     a_offers = running["A"]
     b_runs = running["B"]
-    bl, al = logs["B"], logs["A"]
     E.observe([bl[-3:], al[-3:], net.count])
     if a_offers:
         E.reach("h04.offered")
